@@ -144,6 +144,70 @@ theorem loadRoot_grows (shipped : Option Root) (st : St) :
               · left; exact h'
               · right; left; exact h'
 
+/-- `loadRoot_grows` with what the half-cleared states hold: a new state has the trust state of the start or of the end of the phase,
+or the phase rotated the online keys (then the two removals pass through half-cleared states) -/
+theorem loadRoot_grows2 (shipped : Option Root) (st : St) :
+    Grows (fun d => d.trust = st.ds.trust ∨ d.trust = (loadRoot cfg srv shipped st).2.ds.trust ∨
+        (Rotated cfg srv shipped st ∧ d.tgt = st.ds.tgt ∧ d.root = st.ds.root ∧
+          (d.ts = st.ds.ts ∨ d.ts = .absent) ∧ (d.snap = st.ds.snap ∨ d.snap = .absent)))
+      st (loadRoot cfg srv shipped st).2 := by
+  unfold Rotated
+  unfold loadRoot
+  split
+  · exact Grows.refl _ _
+  · rename_i r0
+    split
+    · exact Grows.refl _ _
+    · simp only
+      have hl := rootLoop_states (cfg := cfg) (srv := srv) r0.version (cfg.limits.maxRootUpdates + 1) r0 st
+      have ht := rootLoop_trust (cfg := cfg) (srv := srv) r0.version (cfg.limits.maxRootUpdates + 1) r0 st
+      split
+      · rename_i e1 st1 h1
+        rw [h1] at hl
+        exact Grows.of_states_eq hl
+      · rename_i r1 st1 h1
+        rw [h1] at hl ht
+        have hg := expiryGate_grows (cfg := cfg) .root r1.expires st1
+        have hgt := expiryGate_trust (cfg := cfg) .root r1.expires st1
+        have ht1 : st1.ds.trust = st.ds.trust := ht
+        split
+        · rename_i e2 st2 h2
+          rw [h2] at hg
+          intro d hd
+          rcases hg d hd with h | h
+          · left; exact hl ▸ h
+          · right; left; exact h.trans ht1
+        · rename_i st2 h2
+          rw [h2] at hg hgt
+          have ht2 : st2.ds.trust = st.ds.trust := (show st2.ds.trust = st1.ds.trust from hgt).trans ht1
+          have base : ∀ d ∈ st2.states, d ∈ st.states ∨ d.trust = st.ds.trust := by
+            intro d hd
+            rcases hg d hd with h | h
+            · left; exact hl ▸ h
+            · right; exact h.trans ht1
+          split
+          · rename_i hk
+            intro d hd
+            simp only [recordRoot, clearOnline, St.states, List.filterMap_cons, Ev.after?, List.mem_cons] at hd
+            rcases hd with h | h | h | h | h
+            · right; right; left; subst h; rfl
+            · right; right; right; subst h
+              exact ⟨⟨r0, r1, rfl, rfl, hk⟩, congrArg (·.2.2.1) ht2, congrArg (·.2.2.2) ht2, Or.inr rfl, Or.inr rfl⟩
+            · right; right; right; subst h
+              exact ⟨⟨r0, r1, rfl, rfl, hk⟩, congrArg (·.2.2.1) ht2, congrArg (·.2.2.2) ht2, Or.inl (congrArg (·.1) ht2), Or.inr rfl⟩
+            · right; right; right; subst h
+              exact ⟨⟨r0, r1, rfl, rfl, hk⟩, congrArg (·.2.2.1) ht2, congrArg (·.2.2.2) ht2, Or.inr rfl, Or.inl (congrArg (·.2.1) ht2)⟩
+            · rcases base d h with h' | h'
+              · left; exact h'
+              · right; left; exact h'
+          · intro d hd
+            simp only [recordRoot, St.states, List.filterMap_cons, Ev.after?, List.mem_cons] at hd
+            rcases hd with h | h
+            · right; right; left; subst h; rfl
+            · rcases base d h with h' | h'
+              · left; exact h'
+              · right; left; exact h'
+
 /-- `load_timestamp`, any outcome -/
 theorem loadTimestamp_grows (root : Root) (st : St) :
     Grows (fun d => d.trust = st.ds.trust ∨ d.trust = (loadTimestamp cfg srv root st).2.ds.trust)
